@@ -266,7 +266,7 @@ fn main() {
 
 fn kind(op: &Op) -> &'static str {
     match op {
-        Op::Add(_) => "add",
+        Op::Add(_) | Op::AddSparse(_) => "add",
         Op::Update(..) => "update",
         Op::Remove(_) => "remove",
         Op::Get(_) => "get",
